@@ -21,7 +21,7 @@ COQ = os.path.join(VERIF, "coq")
 if os.path.realpath(REPO) != "/repo":
     # scratch worktree (mutation testing): use a private copy of the Coq tree so
     # that regenerated gen/*.v from the mutated sources never touch /verif/coq
-    _alt = os.path.join(BUILD, "alt-" + hashlib.sha1(os.path.realpath(REPO).encode()).hexdigest()[:10])
+    _alt = os.path.join(BUILD, "alt-" + (os.environ.get("VERIF_ALT_KEY") or hashlib.sha1(os.path.realpath(REPO).encode()).hexdigest()[:10]))
     if not os.path.exists(os.path.join(_alt, "coq")):
         os.makedirs(_alt, exist_ok=True)
         subprocess.run(["cp", "-a", COQ, os.path.join(_alt, "coq")], check=True)
